@@ -122,6 +122,9 @@ func (fg *FuncGen) Script(blk int) string {
 	if s := fg.segs[-1]; s != nil {
 		out.WriteString(s.String())
 	}
+	if blk == -3 {
+		return out.String()
+	}
 	var need map[int]bool
 	if blk >= 0 && len(fg.order) > 12 {
 		need = map[int]bool{}
@@ -453,17 +456,34 @@ func (fg *FuncGen) resolveAt(name string, li *loopInfo) ssa.Value {
 			}
 		}
 	}
-	// a use in a dominating block: take the deepest
-	var best *ssa.DebugRef
+	// the latest definition that dominates the loop: a phi carrying the variable, or a use in a dominating block
+	var bestV ssa.Value
+	var bestB *ssa.BasicBlock
+	consider := func(v ssa.Value, b *ssa.BasicBlock) {
+		if !b.Dominates(li.header) || b == li.header {
+			return
+		}
+		if bestB == nil || (bestB.Dominates(b) && bestB != b) {
+			bestV, bestB = v, b
+		}
+	}
 	for _, d := range candidates {
-		if d.Block().Dominates(li.header) && d.Block() != li.header {
-			if best == nil || best.Block().Dominates(d.Block()) {
-				best = d
+		consider(d.X, d.Block())
+	}
+	for _, b := range fg.fn.Blocks {
+		for _, in := range b.Instrs {
+			if phi, ok := in.(*ssa.Phi); ok && phi.Comment == name {
+				if bestB == nil || bestB.Dominates(b) {
+					consider(phi, b)
+					if bestB == b {
+						bestV = phi
+					}
+				}
 			}
 		}
 	}
-	if best != nil {
-		return best.X
+	if bestV != nil {
+		return bestV
 	}
 	for _, p := range fg.fn.Params {
 		if p.Name() == name {
@@ -1175,6 +1195,15 @@ func (g *Gen) assignFamilies(a string, fn *ssa.Function) []string {
 	}
 	if strings.HasPrefix(a, "fam:") {
 		return []string{a[4:]}
+	}
+	if i := strings.Index(a, "@"); i > 0 {
+		fam := a[i+1:]
+		srt := "(Array Int Int)"
+		if fam == "B_ok" {
+			srt = "(Array Int Bool)"
+		}
+		g.Family(fam, srt)
+		return []string{fam}
 	}
 	if strings.HasPrefix(a, "*") {
 		t := find(a[1:])
